@@ -7,6 +7,9 @@ COMMON_TRUST = [
     "hand-written model Btdht/Model/*.lean is tied to the code only by the differential runs reported here",
 ]
 
+NODE_TRUST = COMMON_TRUST + ["the node model is tied to the real MainlineDht (handler task, bootstrap task, socket layer, API) by lockstep on the event trace of the vtrace! hooks under tokio's paused clock; iteration order of the first-round contact hash set and the order of two tasks woken at the same instant are oracle inputs (~fr, ~bfirst)",
+                                   "tokio runtime behaviour (timers fire at their deadline, task scheduling, cooperative budget) is observed, not proved; a same-instant interleaving the model does not reproduce is excluded from the comparison and counted (unmodelled)"]
+
 PROPS = {
     "C20": {
         "engines": [{"name": "bep42", "quick": 40, "thorough": 2700}],
@@ -117,5 +120,19 @@ PROPS = {
                                    "transaction ids of our own queries are 8 bytes (C19), tokens we issue are 20 bytes (SHA-1); echoed transaction ids are assumed <= 32 bytes in the reply theorem (the [C17] oracle measures the real datagrams, incl. longer echoed ids)"],
         "assumptions": ["echoed transaction id <= 32 bytes for the 1500-byte reply theorem (the formula theorem is stated for any bound)"],
         "level_note": "size formula 653+8v / 653+21v for replies, structural bounds of handler replies (<= 8 nodes per family, <= 100/40 peers, 20-byte token), fixed query sizes, announce <= 420 with a recorded token, error replies < 70+tid proved for all states; every datagram the real handler emits in lockstep runs is measured by the [C17] oracle. Findings F17 (unbounded values list) and F17b (unbounded echoed token) were fixed in /repo",
+    },
+    "C18": {
+        "engines": [{"name": "node", "quick": 42, "thorough": 210, "oracle_tag": "C18"}],
+        "constants": ["REFRESH_INTERVAL_TIMEOUT_ns", "PERIODIC_CHECK_TIMEOUT_ns", "GOOD_NODE_THRESHOLD"],
+        "trusted": NODE_TRUST,
+        "assumptions": [],
+        "level_note": "single refresh chain (at most one pending TableRefresh entry in every state of every run) and >= 6 s between consecutive refresh rounds, hence at most w/6s+1 rounds in any window, proved for all runs of the node model (any inputs, any number of re-bootstraps); finding F18 (one more chain per bootstrap completion) demonstrated by the node engine and fixed in /repo",
+    },
+    "C16": {
+        "engines": [{"name": "node", "quick": 42, "thorough": 210, "oracle_tag": "C16"}],
+        "constants": ["GOOD_NODE_THRESHOLD"],
+        "trusted": NODE_TRUST,
+        "assumptions": [],
+        "level_note": "queueing before the first completion, start of every queued search (in order, by the same function a late search goes through) when the completion is handled, no stream item/stream end before the first handled completion in any run, queue empty ever after: proved for all runs of the node model; that the started search yields what the late search yields is C02/C03 at model level and the [C16] oracle (every search of a truthful static network yields the stored peer) on the real node. Finding F16 demonstrated by the node engine and fixed in /repo",
     },
 }
